@@ -114,7 +114,8 @@ static std::string run(const Toks& t) {
   if (o == "lognorm") { auto a = vecs(t, 1); V x = a[0]; VectorTools::logNorm(x); return FV(x); }
   if (o == "lseshift") { auto a = vecs(t, 1); double c = a.at(0).at(0); const V& x = a.at(1);
     return F(VectorTools::logSumExp(x + c)) + " " + F(VectorTools::logSumExp(x)); }
-  if (o == "logsum") { return F(NumTools::logsum(hexToDouble(t.at(1)), hexToDouble(t.at(2)))); }
+  if (o == "logsum") { double a = hexToDouble(t.at(1)), b = hexToDouble(t.at(2));
+    return F(NumTools::logsum(a, b)) + " " + F(NumTools::logsum(b, a)); }
   // ---- StatTools
   if (o == "fdr") { auto a = vecs(t, 1); return FV(StatTools::computeFdr(a[0])); }
   return "bad-op";
